@@ -15,6 +15,7 @@ import (
 	"sync"
 
 	"github.com/wi1dcard/fingerproxy/pkg/vhook"
+	"verif/memnet"
 )
 
 type Parked struct {
@@ -148,5 +149,11 @@ func (g *Gates) Open() {
 	}
 }
 
+// HookMemnet also routes memnet's environment-boundary scheduling points through these gates.
+func (g *Gates) HookMemnet() {
+	h := g.handle
+	memnet.Hook.Store(&h)
+}
+
 // Uninstall removes the handler.
-func (g *Gates) Uninstall() { g.Open(); vhook.SetHandler(nil) }
+func (g *Gates) Uninstall() { g.Open(); vhook.SetHandler(nil); memnet.Hook.Store(nil) }
